@@ -144,7 +144,7 @@ impl<'a> Packet<'a> {
         offset: &mut usize,
         items_count: u16,
     ) -> crate::Result<Vec<T>> {
-        let mut section_items = Vec::with_capacity(items_count as usize);
+        let mut section_items = Vec::new();
 
         for _ in 0..items_count {
             section_items.push(T::parse(data, offset)?);
